@@ -216,135 +216,154 @@ def run_layout(pid, tier):
     cov = pl.base_coverage()
     n_acc = n_checked = n_model_viol = rust_bad = 0
     distinct = set()
-    undecided = []      # (case, obs): behaviours on which code and mirror differ -> decided by TLC on the observed values
-    for case, obs in pl.pairs():
-        cid = case["id"]
-        ptr = case["input"]["ptr"]
-        oracle = case["oracle"]
-        kf = [k for k in oracle.get("kf", []) if k.startswith(pid + ":")]
-        kf_class = kf[0] if kf else None
-        if pid in case.get("pviol", []):
-            n_model_viol += 1
-        crashed = obs["outcome"] in ("panic", "hang", "abort")
-        # ---- mirror conformance (drift only)
-        d = []
-        if obs["accepted"] != case["accepted"]:
-            d.append(f"verdict: code {obs['outcome']} vs mirror {'ok' if case['accepted'] else 'err:' + case['err']}")
-        elif obs["accepted"]:
-            d += conform.reg_drift(case["mirror"]["reg"], obs.get("reg"))
-            d += conform.files_drift(case["mirror"]["out"], obs.get("files"))
-        res.add_drift(d, cid)
-        if need_compile and obs["accepted"] and (d or cid % 97 == 0) and len(undecided) < 20000:
-            undecided.append(({"id": cid, "input": case["input"], "group": case.get("group"), "order": case.get("order"),
-                               "sched": case.get("sched"), "accepted": case["accepted"], "oracle": {}}, obs, bool(d)))
 
-        if pid == "C03":
-            if not oracle["plain"]:
-                continue
-            n_checked += 1
-            distinct.add(json.dumps(case["input"]["mods"][0]["defs"][-1], sort_keys=True) + str(ptr))
-            if obs["accepted"] != oracle["realisable"]:
-                what = (f"description {'accepted' if obs['accepted'] else 'rejected (' + obs['outcome'] + ')'} "
-                        f"but it is {'' if oracle['realisable'] else 'not '}realisable (ptr={ptr})")
-                res.violation(what, payload(case, obs), kf_class)
-            if cid % 997 == 0:
-                res.sample({"input": case["input"], "realisable": oracle["realisable"], "code_accepted": obs["accepted"]})
-            continue
+    def scan(pl):
+        """every behaviour of one pipeline judged; returns nothing, updates the counters"""
+        nonlocal n_acc, n_checked, n_model_viol, rust_bad
+        undecided = []      # (case, obs): behaviours on which code and mirror differ -> decided by TLC on the observed values
+        for case, obs in pl.pairs():
+            cid = case["id"]
+            ptr = case["input"]["ptr"]
+            oracle = case["oracle"]
+            kf = [k for k in oracle.get("kf", []) if k.startswith(pid + ":")]
+            kf_class = kf[0] if kf else None
+            if pid in case.get("pviol", []):
+                n_model_viol += 1
+            crashed = obs["outcome"] in ("panic", "hang", "abort")
+            # ---- mirror conformance (drift only)
+            d = []
+            if obs["accepted"] != case["accepted"]:
+                d.append(f"verdict: code {obs['outcome']} vs mirror {'ok' if case['accepted'] else 'err:' + case['err']}")
+            elif obs["accepted"]:
+                d += conform.reg_drift(case["mirror"]["reg"], obs.get("reg"))
+                d += conform.files_drift(case["mirror"]["out"], obs.get("files"))
+            res.add_drift(d, cid)
+            if need_compile and obs["accepted"] and (d or cid % 97 == 0) and len(undecided) < 20000:
+                undecided.append(({"id": cid, "input": case["input"], "group": case.get("group"), "order": case.get("order"),
+                                   "sched": case.get("sched"), "accepted": case["accepted"], "oracle": {}}, obs, bool(d)))
 
-        if not obs["accepted"]:
-            continue
-        n_acc += 1
-        if need_compile:
-            rust_bad += validate_rust_model(pl, res, case, obs)
-        tgts = pl.targets_for(ptr)
-        if pid == "C01":
-            # every named, non-zero-length field of the main type sits at its declared offset
-            if not case["accepted"]:
-                res.notes.append(f"case {cid}: accepted by the code but not by the mirror; C01 decided by trace validation only")
-                continue
-            tpath = case["input"]["mods"][0]["path"] + [case["input"]["mods"][0]["defs"][-1]["name"]]
-            pi = proj_item(obs, tpath)
-            for tgt in tgts:
-                if cid in pl.cfail[tgt]:
-                    continue          # does not compile: C13's business
-                real = pl.layout_of(tgt, cid, tpath, pi)
+            if pid == "C03":
+                if not oracle["plain"]:
+                    continue
                 n_checked += 1
                 distinct.add(json.dumps(case["input"]["mods"][0]["defs"][-1], sort_keys=True) + str(ptr))
-                for f in oracle["offs"]:
-                    if f["off"] == NONE:
-                        continue
-                    got = None if real is None else real["offs"].get(f["name"])
-                    if got != f["off"]:
-                        res.violation(f"field `{f['name']}` declared at offset {f['off']} is at {got} under {tgt} rustc (ptr={ptr})",
-                                      payload(case, obs, {"target": tgt, "layout": real}), kf_class)
-                        break
-            if cid % 499 == 0:
-                res.sample({"input": case["input"], "declared_offsets": oracle["offs"],
-                            "rustc": {t: pl.layout_of(t, cid, tpath, pi) for t in tgts}})
-        elif pid == "C02":
-            for ent in obs.get("reg", []):
-                if ent["cat"] != "def" or ent["st"] != "R":
+                if obs["accepted"] != oracle["realisable"]:
+                    what = (f"description {'accepted' if obs['accepted'] else 'rejected (' + obs['outcome'] + ')'} "
+                            f"but it is {'' if oracle['realisable'] else 'not '}realisable (ptr={ptr})")
+                    res.violation(what, payload(case, obs), kf_class)
+                if cid % 997 == 0:
+                    res.sample({"input": case["input"], "realisable": oracle["realisable"], "code_accepted": obs["accepted"]})
+                continue
+
+            if not obs["accepted"]:
+                continue
+            n_acc += 1
+            if need_compile:
+                rust_bad += validate_rust_model(pl, res, case, obs)
+            tgts = pl.targets_for(ptr)
+            if pid == "C01":
+                # every named, non-zero-length field of the main type sits at its declared offset
+                if not case["accepted"]:
+                    res.notes.append(f"case {cid}: accepted by the code but not by the mirror; C01 decided by trace validation only")
                     continue
-                pi = proj_item(obs, ent["path"])
+                tpath = case["input"]["mods"][0]["path"] + [case["input"]["mods"][0]["defs"][-1]["name"]]
+                pi = proj_item(obs, tpath)
                 for tgt in tgts:
                     if cid in pl.cfail[tgt]:
-                        continue
-                    real = pl.layout_of(tgt, cid, ent["path"], pi)
+                        continue          # does not compile: C13's business
+                    real = pl.layout_of(tgt, cid, tpath, pi)
                     n_checked += 1
-                    if real is None:
-                        res.violation(f"resolved item {'::'.join(ent['path'])} has no emitted counterpart under {tgt}",
-                                      payload(case, obs), kf_class)
-                        continue
-                    if real["size"] != ent["res"]["size"] or real["align"] != ent["res"]["align"]:
-                        res.violation(
-                            f"{'::'.join(ent['path'])}: pyxis resolved size/align {ent['res']['size']}/{ent['res']['align']} "
-                            f"but {tgt} rustc says {real['size']}/{real['align']} (ptr={ptr})",
-                            payload(case, obs, {"target": tgt, "layout": real}), kf_class)
-            # declared size / align / packed are the compiled ones
-            for m in case["input"]["mods"]:
-                for dfn in m["defs"]:
-                    if dfn["k"] != "type":
-                        continue
-                    p = m["path"] + [dfn["name"]]
-                    for tgt in tgts:
-                        real = pl.layout_of(tgt, cid, p, proj_item(obs, p))
-                        if real is None or cid in pl.cfail[tgt]:
+                    distinct.add(json.dumps(case["input"]["mods"][0]["defs"][-1], sort_keys=True) + str(ptr))
+                    for f in oracle["offs"]:
+                        if f["off"] == NONE:
                             continue
-                        if dfn["size"] != NONE and real["size"] != dfn["size"]:
-                            res.violation(f"{'::'.join(p)}: declared size {dfn['size']} but compiled size {real['size']} ({tgt})",
+                        got = None if real is None else real["offs"].get(f["name"])
+                        if got != f["off"]:
+                            res.violation(f"field `{f['name']}` declared at offset {f['off']} is at {got} under {tgt} rustc (ptr={ptr})",
+                                          payload(case, obs, {"target": tgt, "layout": real}), kf_class)
+                            break
+                if cid % 499 == 0:
+                    res.sample({"input": case["input"], "declared_offsets": oracle["offs"],
+                                "rustc": {t: pl.layout_of(t, cid, tpath, pi) for t in tgts}})
+            elif pid == "C02":
+                for ent in obs.get("reg", []):
+                    if ent["cat"] != "def" or ent["st"] != "R":
+                        continue
+                    pi = proj_item(obs, ent["path"])
+                    for tgt in tgts:
+                        if cid in pl.cfail[tgt]:
+                            continue
+                        real = pl.layout_of(tgt, cid, ent["path"], pi)
+                        n_checked += 1
+                        if real is None:
+                            res.violation(f"resolved item {'::'.join(ent['path'])} has no emitted counterpart under {tgt}",
                                           payload(case, obs), kf_class)
-                        if dfn["align"] != NONE and real["align"] != dfn["align"]:
-                            res.violation(f"{'::'.join(p)}: declared align {dfn['align']} but compiled align {real['align']} ({tgt})",
-                                          payload(case, obs), kf_class)
-                        if dfn["packed"] and real["align"] != 1:
-                            res.violation(f"{'::'.join(p)}: packed but compiled align {real['align']} ({tgt})",
-                                          payload(case, obs), kf_class)
-            distinct.add(json.dumps(case["input"]["mods"][0]["defs"], sort_keys=True) + str(ptr))
-            if cid % 499 == 0:
-                res.sample({"input": case["input"],
-                            "resolved": [{"path": e["path"], "size": e["res"]["size"], "align": e["res"]["align"]}
-                                         for e in obs.get("reg", []) if e["st"] == "R"]})
-    # ---- direction B: TLC evaluates the property on what the code actually did
-    if undecided:
-        recs, back = [], {}
-        for case, obs, drifted in undecided:
-            for ti, tgt in enumerate(pl.targets_for(case["input"]["ptr"])):
-                if case["id"] in pl.cfail[tgt]:
-                    continue
-                rid = case["id"] * 4 + ti
-                r = trace.record(case, obs, lambda path, oi, tgt=tgt, cid=case["id"]: pl.layout_of(tgt, cid, path, oi))
-                r["id"] = rid
-                recs.append(r)
-                back[rid] = (case, obs, tgt, drifted)
-        verdicts, tst = trace.evaluate(recs, os.path.join(pl.dir, "trace"))
-        tst.pop("kf_ids", None)
-        cov["trace_validation"] = dict(tst, drifted=sum(1 for _, _, d_ in undecided if d_))
-        for rid, viol in verdicts.items():
-            case, obs, tgt, drifted = back[rid]
-            if pid in viol:
-                res.violation(f"{pid} is false on the observed behaviour (evaluated by TLC on the recorded registry, emitted items "
-                              f"and {tgt} rustc layouts; code and mirror {'disagree' if drifted else 'agree'} on this case)",
-                              payload(case, obs, {"target": tgt}), None)
+                            continue
+                        if real["size"] != ent["res"]["size"] or real["align"] != ent["res"]["align"]:
+                            res.violation(
+                                f"{'::'.join(ent['path'])}: pyxis resolved size/align {ent['res']['size']}/{ent['res']['align']} "
+                                f"but {tgt} rustc says {real['size']}/{real['align']} (ptr={ptr})",
+                                payload(case, obs, {"target": tgt, "layout": real}), kf_class)
+                # declared size / align / packed are the compiled ones
+                for m in case["input"]["mods"]:
+                    for dfn in m["defs"]:
+                        if dfn["k"] != "type":
+                            continue
+                        p = m["path"] + [dfn["name"]]
+                        for tgt in tgts:
+                            real = pl.layout_of(tgt, cid, p, proj_item(obs, p))
+                            if real is None or cid in pl.cfail[tgt]:
+                                continue
+                            if dfn["size"] != NONE and real["size"] != dfn["size"]:
+                                res.violation(f"{'::'.join(p)}: declared size {dfn['size']} but compiled size {real['size']} ({tgt})",
+                                              payload(case, obs), kf_class)
+                            if dfn["align"] != NONE and real["align"] != dfn["align"]:
+                                res.violation(f"{'::'.join(p)}: declared align {dfn['align']} but compiled align {real['align']} ({tgt})",
+                                              payload(case, obs), kf_class)
+                            if dfn["packed"] and real["align"] != 1:
+                                res.violation(f"{'::'.join(p)}: packed but compiled align {real['align']} ({tgt})",
+                                              payload(case, obs), kf_class)
+                distinct.add(json.dumps(case["input"]["mods"][0]["defs"], sort_keys=True) + str(ptr))
+                if cid % 499 == 0:
+                    res.sample({"input": case["input"],
+                                "resolved": [{"path": e["path"], "size": e["res"]["size"], "align": e["res"]["align"]}
+                                             for e in obs.get("reg", []) if e["st"] == "R"]})
+        # ---- direction B: TLC evaluates the property on what the code actually did
+        if undecided:
+            recs, back = [], {}
+            for case, obs, drifted in undecided:
+                for ti, tgt in enumerate(pl.targets_for(case["input"]["ptr"])):
+                    if case["id"] in pl.cfail[tgt]:
+                        continue
+                    rid = case["id"] * 4 + ti
+                    r = trace.record(case, obs, lambda path, oi, tgt=tgt, cid=case["id"]: pl.layout_of(tgt, cid, path, oi))
+                    r["id"] = rid
+                    recs.append(r)
+                    back[rid] = (case, obs, tgt, drifted)
+            verdicts, tst = trace.evaluate(recs, os.path.join(pl.dir, "trace"))
+            tst.pop("kf_ids", None)
+            cov["trace_validation" if pl.name == "layout" else "trace_validation_text_level"] = dict(tst, drifted=sum(1 for _, _, d_ in undecided if d_))
+            for rid, viol in verdicts.items():
+                case, obs, tgt, drifted = back[rid]
+                if pid in viol:
+                    res.violation(f"{pid} is false on the observed behaviour (evaluated by TLC on the recorded registry, emitted items "
+                                  f"and {tgt} rustc layouts; code and mirror {'disagree' if drifted else 'agree'} on this case)",
+                                  payload(case, obs, {"target": tgt}), None)
+
+    scan(pl)
+    # ---- the same properties on the text-level family: every single-token mutation of three base texts that is still a module
+    #      of the language (Parse.tla) with an image in Base.tla (Interp.tla), fed to pyxis as the mutated TEXT
+    pl_pipe = Pipeline(tier, module="MC_Pipe", cfgs={"quick": ["MC_Pipe_q1.cfg"], "thorough": ["MC_Pipe_q1.cfg"]}, name="layout-pipe")
+    if need_compile:
+        pl_pipe.compile()
+    bp = pl_pipe.base_coverage()
+    for k in ("states", "transitions", "traces_validated_against_impl"):
+        cov[k] += bp[k]
+    cov["tlc"] = [cov["tlc"], bp["tlc"]]
+    cov["checker_cmd"] += " ; " + bp["checker_cmd"]
+    before = n_checked
+    scan(pl_pipe)
+    cov["text_level_mutants"] = {"usable_mutants_x_widths": pl_pipe.total, "evaluations": n_checked - before}
     # ---- direction B proper: random descriptions beyond the exhaustive bounds, decided by TLC on the observations
     n_rand = random_layouts(pid, tier, pl, res, cov)
     n_checked += n_rand
